@@ -6,6 +6,8 @@
 @type src/filedb/inner/htx.rs | HTX_HEADER_SIGNATURE
 @type src/filedb/inner/htx.rs | DEFAULT_HT_SIZE
 @type src/filedb/inner/htx.rs | HTX_HT_SIZE_OFFSET
+@type src/filedb/inner/htx.rs | HTX_SIZE_FREE_OFFSET
+@type src/filedb/inner/htx.rs | HTX_SIZE_ARY
 @type src/filedb/inner/htx.rs | HTX_ITEM_COUNT_OFFSET
 @type src/filedb/inner/htx.rs | VarFileHtxCache
 @type src/filedb/inner/htx.rs | HtxFile
